@@ -34,7 +34,7 @@ MOD = 'distributed_shampoo'
 F = 'distributed_shampoo'
 
 ASSUMPTIONS = [
-    'the caller (_compute_preconditioners) builds statistics / exponents / original_shapes / prev_preconditioners in one loop, so they have the same length N (checked: P2c)',
+    'per state, len(state.preconditioners) == len(state.statistics) (init layout, C07.R2); P2c checks the caller contributes one entry per statistic to each parallel list',
     'jnp.stack / jnp.split have numpy semantics',
 ]
 
@@ -192,29 +192,16 @@ def parallel_lists(ctx):
       okz = False
       for c in cons:
         for x in walk(c.args['preconditioners']):
-          if x.op == 'loopdom' and x.args[1].op == 'call' and x.args[1].args[0].op == 'builtin' and x.args[1].args[0].args[0] == 'zip':
-            members = x.args[1].args[1]
+          it = x.args[1] if x.op == 'loopdom' else (x.args[0] if x.op == 'compdom' and len(x.args) == 1 else None)
+          if it is not None and it.op == 'call' and it.args[0].op == 'builtin' and it.args[0].args[0] == 'zip':
+            members = it.args[1]
             if any(y is P('original_shapes') or y is P('prev_preconditioners') for y in members):
               okz = True
       ctx.ob('C13.P2', fi.short, f'results zipped against the N-long per-statistic lists [reuse={reuse}]', okz,
              'the accepted roots must be collected by zipping the flat results with original_shapes / prev_preconditioners (length N), which drops the pads',
              ctx.loc(fi), sample='zip(results, original_shapes, prev_preconditioners, errors)')
   ctx.need('C13.P2', n_lists, 8, 'lists handed to batch')
-  # P2c: the caller builds the parallel lists in one loop
-  fc = m.func(MOD, F + '._compute_preconditioners')
-  ctx.analysed(fc)
-  names = {'statistics': 'state.statistics', 'prev_preconditioners': 'state.preconditioners'}
-  src = ast.unparse(fc.node)
-  ok = 'statistics.extend(state.statistics)' in src and 'prev_preconditioners.extend(state.preconditioners)' in src and \
-      'original_shapes.extend(original_shapes_for_state)' in src
-  loop_ok = False
-  for node in ast.walk(fc.node):
-    if isinstance(node, ast.For) and 'state.statistics' in ast.unparse(node.iter):
-      body = ' '.join(norm_src(s) for s in node.body)
-      loop_ok = 'exponents.append(' in body and 'original_shapes_for_state.append(' in body
-  ctx.ob('C13.P2', fc.short, 'parallel lists built together', ok and loop_ok,
-         'statistics, previous preconditioners, original shapes and exponents must be collected per statistic in the same loop (equal lengths)', ctx.loc(fc),
-         sample='one entry per statistic in each list')
+  caller_lists(ctx)
   # sharded update
   fi = m.func(MOD, F + '.sharded_update_fn')
   v = dict(scheduled=False, steps1=False, reuse=True, metrics=True)
@@ -233,6 +220,103 @@ def parallel_lists(ctx):
   ctx.ob('C13.P2', fi.short, 'sharded: statistics and padding starts extended in lock-step', ok,
          'new_padded_statistics and padding_starts must receive one entry per statistic and the same number of pads', ctx.loc(fi),
          sample='extend per statistic; += [0] * to_pad / eye pads')
+
+
+BACKENDS = ('_pmap_compute_preconditioners', '_pmap_quantized_compute_preconditioners', '_pjit_compute_preconditioners')
+
+
+def _per_state_count(ln, lst, states, n_s):
+  """Number of entries one state contributes to a list built by `_compute_preconditioners` (LEN domain).
+  Entries guarded by a test equivalent to `len(state.statistics) > 0` count fully: the guard is false
+  exactly when the unguarded count (a multiple of n_s) would be 0."""
+  def guard_ok(c):
+    c = strip_casts(c)
+    if c.op == 'cmp' and len(c.args) == 3:
+      op, l, r = c.args
+      try:
+        le, re = ln.scalar(l), ln.scalar(r)
+      except Exception:
+        return False
+      return (op in ('>', '!=') and sp.simplify(le - n_s) == 0 and re == 0) or (op in ('<', '!=') and le == 0 and sp.simplify(re - n_s) == 0) or \
+          (op == '>=' and sp.simplify(le - n_s) == 0 and re == 1) or (op == '<=' and le == 1 and sp.simplify(re - n_s) == 0)
+    try:
+      return sp.simplify(ln.scalar(c) - n_s) == 0     # truthiness of the count itself
+    except Exception:
+      return False
+
+  def inner_count(d):
+    if d is None or is_const(d, None):
+      return sp.Integer(1)
+    if d.op == 'loopdom':
+      if len(d.args) > 2 and d.args[2]:
+        raise LenError('conditionally appended entry inside the per-statistic loop')
+      return ln._iter(d.args[1]) * inner_count(d.args[3] if len(d.args) > 3 else None)
+    if d.op == 'guarded':
+      if not guard_ok(d.args[0]):
+        raise LenError(f'entry appended under {show(d.args[0], maxdepth=3)}')
+      return inner_count(d.args[1]) if len(d.args) > 1 else sp.Integer(1)
+    if d.op in ('attr', 'elem', 'sym', 'list', 'tuple', 'mut', 'call', 'sub'):
+      return ln._iter(d)
+    return ln._dom(d)
+
+  def count(d):
+    if d.op == 'guarded':
+      if not guard_ok(d.args[0]):
+        raise LenError(f'entry appended under {show(d.args[0], maxdepth=3)}')
+      return count(d.args[1])
+    if d.op == 'loopdom' and any(y is states for y in walk(d.args[1])):
+      for g in (d.args[2] if len(d.args) > 2 else ()):
+        if not guard_ok(g):
+          raise LenError(f'entry appended under {show(g, maxdepth=3)}')
+      return inner_count(d.args[3] if len(d.args) > 3 else None)
+    raise LenError(f'entry not produced by the loop over the states: {show(d, maxdepth=3)[:120]}')
+  if lst.op != 'list':
+    raise LenError(f'not a list literal built in the loop: {lst.op}')
+  total = sp.Integer(0)
+  for e in lst.args:
+    if e.op != 'star':
+      raise LenError('entry outside the loop over the states')
+    total += count(e.args[1])
+  return sp.expand(total)
+
+
+def caller_lists(ctx):
+  """P2c: for every state, `_compute_preconditioners` contributes the same number of entries - one per
+  statistic - to statistics, original_shapes, exponents and prev_preconditioners, and hands the same four
+  lists to whichever back-end it dispatches to."""
+  m = ctx.model
+  fc = m.func(MOD, F + '._compute_preconditioners')
+  ctx.analysed(fc)
+  ev = evaluator(m, opaque=D.OPAQUE | set(BACKENDS) | {'preconditioner_from_params'}, decide=Decider(), summaries={'efficient_cond': econd_summary})
+  ev.run(fc)
+  calls = [c for c in ev.calls if c.callee.split('.')[-1] in BACKENDS and c.caller.startswith(fc.fq)]
+  ctx.need('C13.P2', len({c.callee for c in calls}), 3, 'back-end calls in _compute_preconditioners')
+  states = sym('param', fc.short, 'states')
+  for c in calls:
+    be = c.callee.split('.')[-1]
+    ln = Len()
+    stat_attr = [x for x in walk(c.args.get('statistics', NONE)) if x.op == 'attr' and x.args[1] == 'statistics' and any(y is states for y in walk(x.args[0]))]
+    if not stat_attr:
+      ctx.ob('C13.P2', fc.short, f'{be}: statistics gathered from the states', False, 'the statistics list must be gathered from state.statistics of every state', ctx.loc(fc))
+      continue
+    n_s = ln.of(stat_attr[0])
+    n_p = ln.of(T('attr', stat_attr[0].args[0], 'preconditioners'))
+    for k in ('statistics', 'original_shapes', 'exponents', 'prev_preconditioners'):
+      try:
+        got = _per_state_count(ln, c.args[k], states, n_s)
+        ok = sp.simplify(got - n_s) == 0 or (k == 'prev_preconditioners' and sp.simplify(got - n_p) == 0)
+        msg = f'`{k}` receives {got} entries per state, the parallel lists receive len(state.statistics) = {n_s}'
+      except LenError as e:
+        ok, got, msg = False, None, f'`{k}`: {e}'
+      ctx.ob('C13.P2', fc.short, f'{be}: one `{k}` entry per statistic of every state', ok,
+             msg + ': statistics, shapes, exponents and previous preconditioners no longer line up position by position', ctx.loc(fc),
+             sample=f'{k}: {got} per state')
+    nps = c.args.get('num_statistics_per_state')
+    okn = nps is not None and nps.op == 'list' and len(nps.args) == 1 and nps.args[0].op == 'star' and \
+        sp.simplify(ln.scalar(nps.args[0].args[0]) - n_s) == 0 and nps.args[0].args[1].op == 'loopdom' and not nps.args[0].args[1].args[2]
+    ctx.ob('C13.P2', fc.short, f'{be}: num_statistics_per_state holds len(state.statistics) for every state', okn,
+           'the per-state counts used to deal the results back must be len(state.statistics), one per state, unconditionally', ctx.loc(fc),
+           sample='num_statistics_per_state.append(len(state.statistics))')
 
 
 def _same_shape_lists(a, b):
